@@ -116,10 +116,17 @@ def gen_scenario(rng, force=None, kind=None, closer=None, sizes=None):
     # a receive buffer below the loopback MSS makes the kernel crawl (window < MSS: ~16 KB/s); use those only for
     # small streams, and shrink the send buffer (which is what forces partial writes) freely
     small = max(totals.values()) <= 32 * 1024
-    return dict(closer=closer, kind=kind, hc=hc,
+    # what half-closeable protocols do from inside their half-close callbacks (see c15_driver.py)
+    reent = [dict(rdl=rng.choice(["lose", "lose", "half", "write+lose", "write+half"]), wrl=rng.choice(["lose", "later"]),
+                  extra=rng.choice([1, 100, 5000, 70000])) for _ in (1, 2)]
+    ops = [gen_ops(rng, totals[1]), gen_ops(rng, totals[2])]
+    for s in (1, 2):
+        if kind == "half" and s != closer and hc[s - 1] and "write" in reent[s - 1]["rdl"]:
+            totals[s] += reent[s - 1]["extra"]         # cfg.totals = all that side will ever write
+    return dict(closer=closer, kind=kind, hc=hc, reent=reent,
                 sndbuf=rng.choice([0, 1024, 2048, 4096, 4096, 16384]),
                 rcvbuf=rng.choice([0, 1024, 2048, 4096, 16384] if small else [0, 0, 65536, 131072]),
-                ops=[gen_ops(rng, totals[1]), gen_ops(rng, totals[2])], rdpause=rdpause,
+                ops=ops, rdpause=rdpause,
                 abort_delay_ms=rng.choice([0, 0, 1, 5, 30]), totals=[totals[1], totals[2]])
 
 
@@ -130,7 +137,8 @@ def plan(ctx):
         scs = [gen_scenario(ctx.rng, force="huge" if k == 0 or (k % 25 == 0) else None) for k in range(per)]
         # on every reactor: every close kind x closing side, with the traffic shape that close kind is made for
         # (lose / abort: the closer has sent a lot; half-close: the peer still sends a lot after the closer has finished)
-        for kind, sizes in (("lose", ("large", "small")), ("half", ("small", "large")), ("half", ("medium", "medium")), ("abort", ("large", "small"))):
+        for kind, sizes in (("lose", ("large", "small")), ("half", ("small", "large")), ("half", ("medium", "medium")),
+                            ("half", ("medium", "zero")), ("abort", ("large", "small"))):
             for closer in (1, 2):
                 scs.append(gen_scenario(ctx.rng, force="hc" if kind == "half" and ctx.rng.random() < 0.5 else None,
                                         kind=kind, closer=closer, sizes=sizes))
